@@ -11,7 +11,7 @@ from vfcore import REPO
 META = {
     "engine": "fuzz", "level": "exploration", "design_ref": "DESIGN.md §4.3 C35",
     "technique": "out-of-process mutation fuzzing (byte, token, keyword-dictionary, splice, nesting, hostile numbers) of the ASan+UBSan+assert builds of mfront and mfront-query on the repository's .mfront corpus, with an exit classifier (signal / sanitizer report / assertion / hang vs. the tools' own error reporting)",
-    "text": "Thousands of mutated inputs per run are fed to the sanitizer-instrumented real binaries (every interface registered in this build, a rotating set of mfront-query queries). Any death by signal, AddressSanitizer/UBSan report, failed assertion or confirmed hang (watchdog fired twice on the same input) is a violation carrying the input; a non-zero exit with a message — including mfront-query's documented 'terminate called after throwing …what():' path under libstdc++ — is an error report. No coverage feedback: reach comes from corpus breadth and dictionary-aware mutation; held on the inputs executed only.",
+    "text": "A systematic sweep places every keyword of every DSL (read from the binary) alone after the header of a minimal input, right after the header and at the end of a real input of that DSL, followed by varied argument shapes; then thousands of mutated inputs per run (byte, token, keyword, splice, nesting, hostile numbers, name aliasing) are fed to the sanitizer-instrumented real binaries (every interface registered in this build, a rotating set of mfront-query queries). Any death by signal, AddressSanitizer/UBSan report, failed assertion or confirmed hang (watchdog fired twice on the same input) is a violation carrying the input; a non-zero exit with a message — including mfront-query's documented 'terminate called after throwing …what():' path under libstdc++ — is an error report. No coverage feedback: reach comes from corpus breadth and dictionary-aware mutation; held on the inputs executed only.",
     "note": "Trusted: the classifier in vfcore.Ctx.classify_crash; ASan reports 'allocation-size-too-big'/'out-of-memory' are resource exhaustion of the instrumented build (a plain build throws std::bad_alloc, an error report) and are counted, not judged. Solver-specific interfaces are compiled out of this configuration and are not reachable.",
 }
 
@@ -81,6 +81,52 @@ def run(ctx):
                vfcore.sha(mut, " ".join(cmd[1:])), mut != data, (r.err[-2500:] if crash else ""))
         shutil.rmtree(d, ignore_errors=True)
         return res
+
+    # ---- systematic keyword sweep: every keyword of every DSL, alone after the header of a minimal input / inside a real input
+    per_dsl = {}
+    for dsl, r in zip(dsls, vfcore.pmap(lambda d: vfcore.run([mfront, "--help-keywords-list=" + d], timeout=300, env=env), dsls)):
+        per_dsl[dsl] = sorted({m.group(1).encode() for m in re.finditer(r"(@[A-Za-z_0-9]+)", r.out + r.err)})
+    texts = [(f, f.read_bytes()) for f in files]
+    sweep = []
+    gs = vfcore.rng(ctx.seed, "c35-sweep")
+    for dsl in dsls:
+        pat = re.compile(rb"@(?:DSL|Parser)\s+" + re.escape(dsl.encode()) + rb"\s*[;{]")
+        real = next((d for f, d in texts if pat.search(d) and len(d) < 20000), None)
+        head = b"@DSL " + dsl.encode() + b";"
+        for label, data in fuzz.keyword_sweep(gs, per_dsl[dsl], (head, real if real is not None else head + b"\n"), ctx.thorough):
+            sweep.append((dsl, label, data))
+    if not ctx.thorough:
+        # quick: a third of the (DSL, keyword) pairs, rotating with the seed (the DSLs share most handlers through their base classes)
+        sweep = [x for k, x in enumerate(sweep) if k % 3 == ctx.seed % 3]
+    ctx.cov["keyword_sweep"] = {"dsls": len(per_dsl), "keywords": sum(len(v) for v in per_dsl.values()), "inputs_run": len(sweep)}
+
+    def one_sweep(args):
+        k, (dsl, label, data) = args
+        d = ctx.work / ("s%d" % k)
+        d.mkdir()
+        (d / "in.mfront").write_bytes(data)
+        cmd = [mfront, "--interface=generic", "in.mfront"]
+        r = vfcore.run(vfcore.isolated(cmd), timeout=60, cwd=d, env=env)
+        if r.timed_out:
+            r2 = vfcore.run(vfcore.isolated(cmd), timeout=150, cwd=d, env=env)
+            if not r2.timed_out:
+                r = r2
+        crash = ctx.classify_crash(r, recognised_terminate=False)
+        shutil.rmtree(d, ignore_errors=True)
+        return dsl, label, data, crash, (r.err[-2500:] if crash else ""), r.rc
+
+    nsw = {"error": 0, "success": 0, "crash": 0}
+    for dsl, label, data, crash, err, rc in vfcore.pmap(one_sweep, list(enumerate(sweep)), workers=vfcore.NCPU):
+        ctx.add_eval()
+        ctx.add_distinct(vfcore.sha(data))
+        if crash and not (crash.startswith("asan:allocation-size-too-big") or crash.startswith("asan:out-of-memory")):
+            nsw["crash"] += 1
+            ctx.violation("mfront:keyword-sweep:%s:%s" % (label.split("/")[0], crash), "mfront on keyword %s of DSL %s (%s): %s\n%s" % (label, dsl, label.split("/")[1], crash, err),
+                          {"tool": "mfront", "dsl": dsl, "keyword_and_placement": label, "input_base64": base64.b64encode(data).decode()})
+        else:
+            nsw["success" if rc == 0 else "error"] += 1
+    ctx.cov["keyword_sweep"]["outcomes"] = nsw
+    ctx.require(len(sweep) > 100, "keyword sweep too small (%d)" % len(sweep))
 
     classes = {}
     kinds = {}
